@@ -237,6 +237,13 @@ def main():
         for cl, n in (h.expect_classes or {}).items():
             if classes.get(cl, 0) < n:
                 broken.append('%s/%s: %d obligations of class %s, expected >= %d (dropped contract?)' % (mod.NAME, h.name, classes.get(cl, 0), cl, n))
+        # cbmc reports UNKNOWN for obligations it leaves undecided behind a failed one (e.g. after a failed loop-invariant step): with a FAILURE in the
+        # same harness they are consequences and only the FAILUREs are reported; without one the run decided nothing for them -> CHECK-BROKEN
+        unk = [o for o in obl if o['status'] == 'UNKNOWN']
+        if unk and not any(o['status'] == 'FAILURE' for o in obl):
+            broken.append('%s/%s: %d obligations UNKNOWN without any FAILURE (e.g. %s)' % (mod.NAME, h.name, len(unk), unk[0]['name']))
+            continue
+        obl = [o for o in obl if o['status'] != 'UNKNOWN']
         rel = [o for o in obl if relevant(o, prop, hprops)]
         # obligations that a listed open finding says fail on this tree (DESIGN 11.4) are reported as KNOWN-FINDING and are
         # not counted among the obligations of the proof claim (neither as obligations nor as discharged)
